@@ -4,6 +4,8 @@ package cmd
 
 import (
 	"bytes"
+	"io"
+	"runtime"
 	"time"
 
 	"github.com/Masterminds/semver/v3"
@@ -30,7 +32,9 @@ func verifSharedConfig(withInfo bool) *nfpm.Config {
 	cfg.MTime = time.Unix(1700000000, 0).UTC()
 	cfg.Umask = 0o022
 	cfg.RPM.BuildHost = "host"
-	cfg.Depends = append(make([]string, 0, 4), "dep")
+	// column-aligned relation entries: a packager that tidies them must do so on its own copy
+	cfg.Depends = append(make([]string, 0, 4), "dep   >= 1.0")
+	cfg.Conflicts = []string{"old \t<  2.0"}
 	cfg.Provides = []string{"", "prov", "prov2"}
 	cfg.Scripts.PostInstall = sc
 	cfg.Deb.Fields = map[string]string{"Bugs": "b"}
@@ -136,6 +140,32 @@ func verifIsolation(op, format string, withInfo bool, prop string) {
 	if prop == "C12" {
 		v.Assert(!v.Written("config"), format+"-"+op+"-writes-no-memory-shared-through-the-configuration")
 		v.Assert(v.GlobalWrites() == 0, format+"-"+op+"-writes-no-package-level-variable")
+		// natively: the same packaging, stalled at its first output write until an
+		// independent packaging of the same format (other content) has run to its
+		// end on the same P, must still produce what it produces alone
+		interleavedOK := true
+		if !v.Symbolic() && op == "package" {
+			build := func(c *nfpm.Config, w io.Writer) {
+				if info, err := c.Get(format); err == nil {
+					Packager(format).Package(nfpm.WithDefaults(info), w)
+				}
+			}
+			var alone bytes.Buffer
+			build(verifCfg(), &alone)
+			prev := runtime.GOMAXPROCS(1)
+			gate := make(chan struct{})
+			a := &verifStallWriter{gate: gate}
+			other := verifSharedConfig(!withInfo)
+			go func() {
+				var b bytes.Buffer
+				build(other, &b)
+				close(gate)
+			}()
+			build(verifCfg(), a)
+			runtime.GOMAXPROCS(prev)
+			interleavedOK = format == "rpm" || bytes.Equal(a.buf.Bytes(), alone.Bytes())
+		}
+		v.Assert(v.PooledAccesses() == 0 && interleavedOK, format+"-"+op+"-touches-no-object-after-handing-it-back-to-a-pool")
 	}
 }
 
@@ -163,4 +193,19 @@ func indexOf(format string) int {
 		}
 	}
 	return 0
+}
+
+// verifStallWriter blocks its first Write until gate is closed.
+type verifStallWriter struct {
+	gate   chan struct{}
+	waited bool
+	buf    bytes.Buffer
+}
+
+func (w *verifStallWriter) Write(p []byte) (int, error) {
+	if !w.waited {
+		w.waited = true
+		<-w.gate
+	}
+	return w.buf.Write(p)
 }
